@@ -119,7 +119,7 @@ func (e *Exec) valueJSON(v Value, memo map[*Term]any) any {
 	return map[string]any{"k": "unsupported", "go": fmt.Sprintf("%T", v)}
 }
 
-var constructorOps = map[string]bool{"b.cat": true, "b.ofstr": true, "b.empty": true, "str.cat": true, "str.u64": true, "str.int": true, "str.hex": true, "str.ofb": true, "modaddr": true, "modaddr0": true}
+var constructorOps = map[string]bool{"b.cat": true, "b.ofstr": true, "b.empty": true, "str.cat": true, "str.u64": true, "str.int": true, "str.hex": true, "str.ofb": true, "modaddr": true, "modaddr0": true, "pk.addr": true, "pk.bytes": true}
 
 // entailed: does the path condition (plus the negated assertion) force eq?
 func (e *Exec) entailed(negated *Term, eq *Term) bool {
